@@ -214,5 +214,8 @@ func renderCorpus() [][]PStmt {
 			{T: "define", Kind: "k2", Opts: []POpt{{T: "notrace"}}}, {T: "wrap", F: 2, C: ip(0)}, {T: "join", F: 2, Cs: []*int{ip(0), nil, ip(1)}}},
 		{{T: "define", Kind: "k1", Opts: []POpt{{T: "json", ID: 1}, {T: "notrace"}}}, {T: "ctx", Opts: []POpt{field}}, {T: "with", D: 0, Ctx: ip(0)},
 			{T: "new", F: 1, Msg: "via context"}, {T: "define", Kind: "k2", Opts: []POpt{{T: "notrace"}}}, {T: "wrap", F: 2, C: ip(0)}},
+		// a foreign cause with its own marshalers is still rendered by the library
+		{{T: "define", Kind: "k1", Opts: []POpt{{T: "notrace"}}}, {T: "leaf", Msg: "jm leaf", Ty: "jm"}, {T: "wrap", F: 0, C: ip(0)},
+			{T: "single", Msg: "outer", C: ip(0)}, {T: "join", F: 0, Cs: []*int{ip(2), ip(0)}}},
 	}
 }
